@@ -11,7 +11,7 @@
     contains header-like text).
     catalog_found is proved for the modelled stages 4a-4d under [cat_hyp] (c19_catalog_found);
     stages 4e/4f are not modelled. *)
-From OxVerif Require Import Base.Util C09.Model C19.Model C19.Proofs C19.Chunk C19.ChunkLong C19.ChunkEx C19.Catalog.
+From OxVerif Require Import Base.Util C09.Model C19.Model C19.Proofs C19.Chunk C19.ChunkLong C19.ChunkEx C19.Catalog C19.Compact.
 
 (** the whole-file window finds exactly the object headers of the document, at their true offsets
     (any size) — scan_window_for_headers returns them in reverse discovery order here *)
@@ -24,6 +24,24 @@ Print Assumptions c19_scan_window_finds_all.
 
 (** scan_finds_all, for files of at most one chunk (no condition on line lengths): the chunked
     scan_object_headers returns the true offset table *)
+(** compact / styled objects: whatever follows the keyword `obj` on the header line — a delimiter
+    `[ ( / <`, a comment (even one containing header-like text), white space, the whole object
+    up to `endobj` — and whatever cross-reference part [t] (no byte 'j': intact, damaged, absent)
+    follows the objects, the scan finds every `N 0 obj` at its true offset.  Hypothesis: after
+    the header line no later line of an object looks like a header ([cquiet_doc]). *)
+Theorem c19_scan_window_finds_all_compact : forall d t,
+  cwf d = true -> cquiet_doc d = true -> forallb noj t = true ->
+  snd (scan_window (crender d t) 0 [] []) = rev (coffsets d).
+Proof. exact scan_window_crender. Qed.
+Check c19_scan_window_finds_all_compact : forall d t,
+  cwf d = true -> cquiet_doc d = true -> forallb noj t = true ->
+  snd (scan_window (crender d t) 0 [] []) = rev (coffsets d).
+Print Assumptions c19_scan_window_finds_all_compact.
+
+Example c19_compact_nonvacuous : cwf CD_OK = true /\ cquiet_doc CD_OK = true
+  /\ scan_file 65536 (crender CD_OK []) = coffsets CD_OK.
+Proof. exact compact_nonvacuous. Qed.
+
 Theorem c19_scan_file_finds_all_partial : forall d root, wf d = true -> quiet_doc d = true ->
   len (render d root) <= 65536 -> scan_file 65536 (render d root) = offsets d.
 Proof. exact scan_file_render. Qed.
